@@ -1,8 +1,9 @@
 (* C14 - the pid files: every live master holds the file it names, nobody touches the file of a live master *)
 From Coq Require Import List ZArith Bool Lia.
-From GV Require Import Model.Upgrade Proof.UpgradeInv.
+From GV Require Import Gen.GenUpgrade Model.Upgrade Proof.UpgradeInv.
 Import ListNotations.
 Local Open Scope Z_scope.
+Local Opaque reload_names_dot2.
 
 Definition holds (s : st) (m : master) : Prop :=
   m_alive m = true ->
@@ -184,14 +185,14 @@ Proof.
 Qed.
 
 (* the pid-file part of reload() and of maybe_promote_master: unlink own file, create the configured name *)
-Lemma rename_pf : forall c s x m1, pidconf c = true -> WF s -> PF s -> m_alive (get s x) = true ->
-  m_pid m1 = m_pid (get s x) -> m_alive m1 = true ->
-  PF (match pf_create (pf_unlink s (get s x)) (m_pid (get s x)) PMain with
-      | Some s2 => put s2 x (set_m_pf m1 PMain (pf_create_owns (pf_unlink s (get s x)) (m_pid (get s x)) PMain))
-      | None => crash c (put (pf_unlink s (get s x)) x (set_m_pf m1 PMain false)) x
+Lemma rename_pf : forall c s x m1 tgt, pidconf c = true -> WF s -> PF s -> m_alive (get s x) = true ->
+  m_pid m1 = m_pid (get s x) -> m_alive m1 = true -> (tgt = PDot2 -> m_mpid m1 <> 0) ->
+  PF (match pf_create (pf_unlink s (get s x)) (m_pid (get s x)) tgt with
+      | Some s2 => put s2 x (set_m_pf m1 tgt (pf_create_owns (pf_unlink s (get s x)) (m_pid (get s x)) tgt))
+      | None => crash c (put (pf_unlink s (get s x)) x (set_m_pf m1 tgt false)) x
       end).
 Proof.
-  intros c s x m1 Pc W P Al Pid Al1.
+  intros c s x m1 tgt Pc W P Al Pid Al1 Tg.
   assert (Ne : m_pid (get s x) <> m_pid (get s (other x))) by (destruct W as [_ _ H3 _ _ _]; destruct x; simpl; auto).
   pose proof (pf_get s x P) as Hx. pose proof (pf_get s (other x) P) as Ho. destruct P as [_ _ B].
   destruct (pf_unlink_masters s (get s x)) as [U1 [U2 U3]].
@@ -199,19 +200,18 @@ Proof.
   assert (Ho1 : holds s1 (get s (other x))) by (apply unlink_other; auto).
   assert (B1 : bounded s1) by (intros n q H; eapply unlink_bound; eauto).
   assert (G1 : get s1 (other x) = get s (other x)) by (destruct x; simpl; auto).
-  destruct (pf_create s1 (m_pid (get s x)) PMain) as [s2|] eqn:Cr.
+  destruct (pf_create s1 (m_pid (get s x)) tgt) as [s2|] eqn:Cr.
   - destruct (pf_create_masters _ _ _ _ Cr) as [EA [EB EN]].
     destruct (create_self _ _ _ _ Cr (unlink_self s (get s x) Hx Al)) as [C1 [C2 C3]].
     apply (pf_slots _ x).
     + rewrite get_put_same. intros _. cbn [m_pname m_pid m_pown m_mpid set_m_pf]. rewrite Pid. rewrite fs_get_putm. repeat split; auto.
       * intros n Hn. rewrite fs_get_putm in Hn. auto.
-      * intros Q. discriminate.
     + rewrite get_put_other.
       assert (G2 : get s2 (other x) = get s (other x)) by (destruct x; simpl in *; congruence).
       rewrite G2.
       apply (holds_ext s2 _ (get s (other x)) (get s (other x))); auto.
       * intros n. apply fs_get_putm.
-      * apply (create_other s1 (m_pid (get s x)) PMain s2 (get s (other x)) Cr Ne); [|exact Ho1].
+      * apply (create_other s1 (m_pid (get s x)) tgt s2 (get s (other x)) Cr Ne); [|exact Ho1].
         intros Ao. rewrite (alive_pid_ext s s1) by auto.
         unfold alive_pid. destruct x; simpl in *; rewrite Ao, Z.eqb_refl; simpl; auto using orb_true_r.
     + intros n q H. rewrite fs_get_putm in H. rewrite next_pid_put. eapply create_bound; eauto.
@@ -290,10 +290,12 @@ Proof.
   - (* NoticeParent *)
     destruct (m_alive (get s x) && negb (m_mpid (get s x) =? 0) && negb (alive_pid s (m_mpid (get s x)))) eqn:Cd; auto.
     apply andb_true_iff in Cd. destruct Cd as [Cd _]. apply andb_true_iff in Cd. destruct Cd as [Al _].
-    rewrite Pc. apply rename_pf; auto.
+    rewrite Pc. apply rename_pf; auto. intros Q; discriminate.
   - (* HUP *)
     destruct (negb (m_alive (get s x))) eqn:Al; auto. apply negb_false_iff in Al.
-    rewrite Pc. apply rename_pf; auto.
+    rewrite Pc. cbv zeta. apply rename_pf; auto.
+    simpl. destruct (reload_names_dot2 && negb (m_mpid (get s x) =? 0)) eqn:E; [|intros Q; discriminate].
+    intros _. apply andb_true_iff in E. destruct E as [_ E]. apply negb_true_iff in E. apply Z.eqb_neq in E. auto.
   - (* WINCH *)
     destruct (m_alive (get s x) && daemon c); auto.
     pose proof (pf_get s x P) as Hx. pose proof (pf_get s (other x) P) as Ho. destruct P as [_ _ B].
